@@ -216,7 +216,8 @@ Theorem C14_statement_shapes_from_source :
   x_add_appends_by_resolved_path = true /\
   x_find_by_path_default_empty = true /\
   x_all_yields_every_value = true /\
-  x_result_meta_none_iff_slot_none = true.
+  x_result_meta_none_iff_slot_none = true /\
+  x_result_sequence_id_before_early_return = true.
 Proof. repeat split; reflexivity. Qed.
 
 (* the catalog side of find_sequence_by_tag: after ANY registration history
